@@ -400,12 +400,19 @@ def stale_unit(pn, cn, dist, tier="quick"):
         check("no_reference_fault", not (effects[0].fault | effects[len(prog) - 2].fault))
         final = views[len(prog)]
         check("registers_follow_interlock_free_semantics", all_of([int(st.register_file.registers[r]) == int(final[r]) for r in range(32)]))
+        # stores write the value their data register had at decode time (no load follows a store in these templates, so
+        # the loads' view of memory is the initial one)
+        want_k = mem0_k
+        for e in effects:
+            for (a, b) in e.stores:
+                want_k = ite(a == k, b, want_k)
+        check("data_memory_follows_interlock_free_semantics", byte_at(st.memory, k) == want_k)
         check("no_decode_stall", st.performance_metrics.stalls == 0)
         check("cycles_n_plus_4", n == len(prog) + 4)
 
 
 for _pn in ("add", "lw"):
-    for _cn in ("add",):
+    for _cn in ("add", "sw"):
         for _d in (1, 2, 3):
             stale_unit(_pn, _cn, _d)
 
